@@ -237,6 +237,19 @@ pub fn mk_range_src(vals: std::sync::Arc<Vec<i64>>) -> impl Fn(usize) -> Tok + S
     }
 }
 
+/// `BTreeMap<u32, Tok>::into_par().map(..)`: keeps the value
+pub fn mk_pair_src() -> impl Fn((u32, Tok)) -> Tok + Send + Sync + Clone {
+    move |(_k, t): (u32, Tok)| {
+        enter(STAGE_SRC, t.id(), 0);
+        t
+    }
+}
+
+/// `BTreeMap<u32, Tok>::par().map(..)`: clones the value
+pub fn mk_pair_ref_src() -> impl for<'a> Fn((&'a u32, &'a Tok)) -> Tok + Send + Sync + Clone {
+    move |(_k, t): (&u32, &Tok)| t.clone()
+}
+
 pub fn mk_pred(pred: Pred) -> impl Fn(&Tok) -> bool + Send + Sync + Clone {
     move |t: &Tok| {
         enter(STAGE_PRED, t.id(), 0);
